@@ -26,6 +26,7 @@ type VerifEvent struct {
 	ID   int
 	Cap  int
 	Dup  int
+	Ptr  uintptr // start address of the slice given to Free
 }
 
 var (
@@ -33,6 +34,7 @@ var (
 	verifLog    []VerifEvent
 	verifIDs    = map[*byte]int{}
 	verifFreed  = map[int]int{}
+	verifCaps   = map[int]int{}
 	verifNext   int
 	verifKeep   [][]byte // keeps freed blocks alive so the address is never reused by the Go allocator
 	VerifPoison = byte(0xDD)
@@ -57,21 +59,28 @@ func VerifReset() {
 	verifLog = nil
 	verifIDs = map[*byte]int{}
 	verifFreed = map[int]int{}
+	verifCaps = map[int]int{}
+	verifNext = 0
 	verifKeep = nil
 }
 
-// VerifBlockOf reports the allocation id of the block a slice starts in (-1 if unknown).
-func VerifBlockOf(buf []byte) int {
+// VerifBlockOf reports the allocation id of the pool block the slice's memory lies in (-1 if none),
+// whether that block has been freed, and the offset of the slice inside the block.
+func VerifBlockOf(buf []byte) (id int, freed bool, off int) {
 	if cap(buf) == 0 {
-		return -1
+		return -1, false, 0
 	}
 	h := (*bytesHeader)(unsafe.Pointer(&buf))
+	p := uintptr(unsafe.Pointer(h.Data))
 	verifMu.Lock()
 	defer verifMu.Unlock()
-	if id, ok := verifIDs[h.Data]; ok {
-		return id
+	for base, bid := range verifIDs {
+		b := uintptr(unsafe.Pointer(base))
+		if p >= b && p < b+uintptr(verifCaps[bid]) {
+			return bid, verifFreed[bid] > 0, int(p - b)
+		}
 	}
-	return -1
+	return -1, false, 0
 }
 
 func calcIndex(size int) int {
@@ -104,6 +113,7 @@ func Malloc(size int, capacity ...int) []byte {
 	id := verifNext
 	verifNext++
 	verifIDs[h.Data] = id
+	verifCaps[id] = 1 << i
 	verifLog = append(verifLog, VerifEvent{Kind: 'm', ID: id, Cap: 1 << i})
 	verifMu.Unlock()
 	return ret
@@ -126,7 +136,7 @@ func Free(buf []byte) {
 		dup = verifFreed[id]
 		verifFreed[id] = dup + 1
 	}
-	verifLog = append(verifLog, VerifEvent{Kind: 'f', ID: id, Cap: size, Dup: dup})
+	verifLog = append(verifLog, VerifEvent{Kind: 'f', ID: id, Cap: size, Dup: dup, Ptr: uintptr(unsafe.Pointer(h.Data))})
 	if ok && dup == 0 {
 		full := buf[:size]
 		if VerifDoPoison {
